@@ -37,7 +37,20 @@ def goenv():
     return e
 
 
+# every time limit of the checks is a safety net against a stuck tool, never a verdict: on a loaded machine (the checks
+# of twenty properties, mutation runs and agents in parallel pushed the load average over 100) the limits as written
+# were reached by healthy runs, so all of them are scaled (VERIF_TIMEOUT_SCALE, default 4)
+TSCALE = float(os.environ.get("VERIF_TIMEOUT_SCALE", "4") or "4")
+
+
 def sh(cmd, cwd=None, timeout=1200, env=None, inp=None):
+    timeout = timeout * TSCALE
+    if isinstance(cmd, list) and len(cmd) > 2 and cmd[0] == "timeout" and str(cmd[1]).isdigit():
+        cmd = [cmd[0], str(int(int(cmd[1]) * TSCALE))] + list(cmd[2:])
+    elif isinstance(cmd, str):
+        m = re.match(r"timeout (\d+) (.*)$", cmd, flags=re.S)
+        if m:
+            cmd = "timeout %d %s" % (int(int(m.group(1)) * TSCALE), m.group(2))
     p = subprocess.run(cmd, cwd=cwd, env=env, input=inp, stdout=subprocess.PIPE, stderr=subprocess.STDOUT,
                        timeout=timeout, shell=isinstance(cmd, str), text=True, errors="replace")
     return p.returncode, p.stdout
